@@ -122,7 +122,7 @@ PROPS.update({
     "C04": h2prop(["TurnModel.Props.C04", "TurnModel.Props.C04NI"], ["m:*", "pdata", "pconn", "cclose", "state"], None, ["response-wrong-source"]),
     "C05": h2prop(["TurnModel.Props.C05"], ["m:send", "m:cdata", "pdata"], ["topeer", "dind", "cdat"], ["chandata-padding"]),
     "C06": h2prop(["TurnModel.Props.C06"], ["m:alloc", "m:refresh", "adv", "state", "m:send", "pdata"], ["resp", "topeer", "dind", "cdat"], []),
-    "C07": h2prop(["TurnModel.Props.C07"], ["m:perm", "m:bind", "adv", "m:send", "m:cdata", "pdata", "state"],
+    "C07": h2prop(["TurnModel.Props.C07", "TurnModel.Props.C07Trace"], ["m:perm", "m:bind", "adv", "m:send", "m:cdata", "pdata", "state"],
                   ["resp", "topeer", "dind", "cdat"], []),
     "C08": h2prop(["TurnModel.Props.C08"], ["m:bind", "m:cdata", "pdata", "state"], ["resp", "cdat", "topeer"],
                   ["chandata-invalid-number-emitted"]),
